@@ -129,10 +129,13 @@ VRepair(e) ==
      ELSE IF Rel("C14") /\ (dec = "unsuccessful" /\ e.res # "unsuccessful") THEN R("C14", "unsuccessful_flag", T)
      ELSE IF Rel("C14") /\ (e.res = "unsuccessful" /\ dec # "unsuccessful") THEN R("C14", "unsuccessful_flag", T)
      ELSE IF Rel("C14") /\ (e.res = "livelock") THEN R("C14", "repair_never_returns" \o cause, T)
+     \* midfault: a server stopped answering between the repairer's survey and its download - the repair may fail (then
+     \* nothing changed) or succeed without that server; if it succeeds the contents are those of the version it chose
      ELSE IF dec = "go" /\ e.res = "error" THEN
-          (IF Rel("C14") /\ (retr) THEN R("C14", "repair_failed_unexpectedly" \o cause, T) ELSE OK(T))
+          (IF Rel("C14") /\ (retr) /\ e.midfault = "" THEN R("C14", "repair_failed_unexpectedly" \o cause, T) ELSE OK(T))
      ELSE IF dec = "go" /\ e.res = "ok" THEN
           (IF Rel("C14") /\ (e.post.content # V[b].content) THEN R("C14", "RepairPreserves_content", T)
+           ELSE IF e.midfault # "" THEN OK(T)
            ELSE IF Rel("C14") /\ (e.post.nnew # N) THEN R("C14", "RepairPreserves_shares", T)
            ELSE IF Rel("C14") /\ (e.post.newseq <= MaxSeq(V, Mr)) THEN R("C14", "RepairPreserves_seq", T)
            ELSE IF Rel("C14") /\ (e.post.stale # 0) THEN R("C14", "RepairPreserves_stale_left", T)
